@@ -305,8 +305,12 @@ def backends(chk):
         else:
             srcs.append(f'#[typeshare]\n#[serde(rename_all = "{rule}")]\npub enum Backend {{\n' + "".join(f"    {m['ident']},\n" for m in ms) + "}\n")
     events, meta = [], []
-    for c, src, per in zip(res.replays, srcs, vobserve.generate(srcs)):
-        for lang in common.LANGS:
+    # ... and once more for Go under the file-only option uppercase_acronyms (it re-spells Go IDENTIFIERS such as APIKey2; the name in the
+    # json tag is still serde's)
+    acr = vobserve.generate(srcs, langs=["go"], cfgs={"go": {"uppercase_acronyms": ["ID", "URL", "API"]}})
+    for c, src, per0, pera in zip(res.replays, srcs, vobserve.generate(srcs), acr):
+        per = dict(per0, **{"go+acronyms": pera["go"]})
+        for lang in common.LANGS + ["go+acronyms"]:
             r = per[lang]
             if r["status"] != "ok":
                 continue          # a refusal / panic / unreadable file is C03 / C07 / C10's business
